@@ -30,6 +30,16 @@ func (fx *FuncExec) execBlock(st *State, list []ast.Stmt) *State {
 			}
 			return fx.mergeStates(ends)
 		}
+		if ifs, ok := s.(*ast.IfStmt); ok && fx.contract != nil && fx.contract.TailSplit && fx.loopDepth == 0 && len(fx.loops) == 0 && len(list) == len(fx.fi.Body.List) && &list[0] == &fx.fi.Body.List[0] && onlyReturns(list[idx+1:]) {
+			fx.curPos = ifs.Pos()
+			var ends []*State
+			for _, o := range fx.execIfBranches(st, ifs) {
+				if o != nil {
+					ends = append(ends, fx.execBlock(o, list[idx+1:]))
+				}
+			}
+			return fx.mergeStates(ends)
+		}
 		if fx.contract != nil && len(fx.contract.After) > 0 {
 			fx.ghostAfter(st, s, true)
 		}
@@ -336,6 +346,9 @@ func (fx *FuncExec) execIf(st *State, s *ast.IfStmt) *State {
 	} else {
 		e = elseSt
 	}
+	if fx.tailHandOver(s, []*State{t, e}) {
+		return nil
+	}
 	return fx.mergeStates([]*State{t, e})
 }
 
@@ -382,6 +395,9 @@ func (fx *FuncExec) execSwitch(st *State, s *ast.SwitchStmt) *State {
 	}
 	fx.loops = fx.loops[:len(fx.loops)-1]
 	outs = append(outs, lc.breaks...)
+	if fx.tailHandOver(s, outs) {
+		return nil
+	}
 	return fx.mergeStates(outs)
 }
 
@@ -445,6 +461,9 @@ func (fx *FuncExec) execTypeSwitch(st *State, s *ast.TypeSwitchStmt) *State {
 	}
 	fx.loops = fx.loops[:len(fx.loops)-1]
 	outs = append(outs, lc.breaks...)
+	if fx.tailHandOver(s, outs) {
+		return nil
+	}
 	return fx.mergeStates(outs)
 }
 
@@ -842,13 +861,14 @@ func (fx *FuncExec) execFor(st *State, s *ast.ForStmt) *State {
 	} else {
 		bodySt = head.clone()
 	}
-	end := fx.execBlock(bodySt, s.Body.List)
+	ends := fx.bodyEnds(bodySt, s.Body.List, lc)
 	fx.loops = fx.loops[:len(fx.loops)-1]
-	back := fx.mergeStates(append([]*State{end}, lc.continues...))
-	if back != nil && s.Post != nil {
-		back = fx.exec(back, s.Post)
+	for _, back := range ends {
+		if back != nil && s.Post != nil {
+			back = fx.exec(back, s.Post)
+		}
+		fx.loopBack(back, ls, s.Pos(), bodyPos, head)
 	}
-	fx.loopBack(back, ls, s.Pos(), bodyPos, head)
 	return fx.mergeStates(append([]*State{exitSt}, lc.breaks...))
 }
 
@@ -913,10 +933,11 @@ func (fx *FuncExec) execRange(st *State, s *ast.RangeStmt) *State {
 		fx.varSort[ckKey] = mi.K
 		fx.ghostVar[fmt.Sprintf("rkey%d", ls.ord)] = ckKey
 		bodySt.vars[ckKey] = k
-		end := fx.execBlock(bodySt, s.Body.List)
+		ends := fx.bodyEnds(bodySt, s.Body.List, lc)
 		fx.loops = fx.loops[:len(fx.loops)-1]
-		back := fx.mergeStates(append([]*State{end}, lc.continues...))
-		fx.loopBack(back, ls, s.Pos(), bodyPos, head)
+		for _, back := range ends {
+			fx.loopBack(back, ls, s.Pos(), bodyPos, head)
+		}
 		// exit: every key currently in the map has been produced
 		kq := fmt.Sprintf("k!x%d", ls.ord)
 		exitSt.assume(fmt.Sprintf("(forall ((%s %s)) (=> (select %s %s) (select %s %s)))", kq, mi.K, sel(fx.H(exitSt, mi.Dom), coll.S), kq, exitSt.vars[seenKey], kq))
@@ -966,12 +987,10 @@ func (fx *FuncExec) execRange(st *State, s *ast.RangeStmt) *State {
 		// the index the body is working on stays available as idxN; increment happens at the back edge
 		fx.runBodySplit(lc, bodySt, func(b *State) {
 			lc.continues = nil
-			end := fx.execBlock(b, s.Body.List)
-			back := fx.mergeStates(append([]*State{end}, lc.continues...))
-			if back != nil {
+			for _, back := range fx.bodyEnds(b, s.Body.List, lc) {
 				back.vars[idxKey] = "(+ " + i + " 1)"
+				fx.loopBack(back, ls, s.Pos(), bodyPos, head)
 			}
-			fx.loopBack(back, ls, s.Pos(), bodyPos, head)
 		})
 		fx.loops = fx.loops[:len(fx.loops)-1]
 		return fx.mergeStates(append([]*State{exitSt}, lc.breaks...))
@@ -1063,4 +1082,62 @@ func (fx *FuncExec) runBodySplit(lc *loopCtx, bodySt *State, run func(b *State))
 		}
 	}
 	fx.counters = maxCnt
+}
+
+
+func onlyReturns(list []ast.Stmt) bool {
+	if len(list) != 1 {
+		return false
+	}
+	_, ok := list[0].(*ast.ReturnStmt)
+	return ok
+}
+
+
+// bodyEnds executes a loop body and returns the states that reach the back
+// edge. Normally they are merged into one; under tail-split a body ending in
+// an if/switch hands back one state per branch (plus the continue states), so
+// that invariant preservation is checked branch by branch.
+func (fx *FuncExec) bodyEnds(b *State, body []ast.Stmt, lc *loopCtx) []*State {
+	split := false
+	if fx.contract != nil && fx.contract.TailSplit && len(body) > 0 {
+		switch body[len(body)-1].(type) {
+		case *ast.IfStmt, *ast.SwitchStmt, *ast.TypeSwitchStmt:
+			split = true
+		}
+	}
+	if !split {
+		end := fx.execBlock(b, body)
+		if m := fx.mergeStates(append([]*State{end}, lc.continues...)); m != nil {
+			return []*State{m}
+		}
+		return nil
+	}
+	savedStmt, savedOuts := fx.tailStmt, fx.tailOuts
+	fx.tailStmt, fx.tailOuts = body[len(body)-1], nil
+	end := fx.execBlock(b, body)
+	outs := fx.tailOuts
+	if fx.tailStmt != nil && end != nil {
+		// the tail statement was not reached as such (should not happen): fall back
+		outs = append(outs, end)
+	}
+	fx.tailStmt, fx.tailOuts = savedStmt, savedOuts
+	var ends []*State
+	for _, o := range append(outs, lc.continues...) {
+		if o != nil {
+			ends = append(ends, o)
+		}
+	}
+	return ends
+}
+
+// tailHandOver: called by if/switch execution with the un-merged branch end
+// states; true when the statement is the designated tail of a loop body.
+func (fx *FuncExec) tailHandOver(s ast.Stmt, outs []*State) bool {
+	if fx.tailStmt == nil || fx.tailStmt != s {
+		return false
+	}
+	fx.tailOuts = append(fx.tailOuts, outs...)
+	fx.tailStmt = nil
+	return true
 }
